@@ -240,17 +240,18 @@ def procOK : List Piece → Bool
   | [] => true
   | p :: rest => !(p.isField && startsEscClose rest) && procOK rest
 
+def startsText : List Piece → Bool
+  | .text _ :: _ => true
+  | _ => false
+
 /-- class on which `containsNamedArgs` is right: up to the first named placeholder, every positional placeholder
     is followed by a literal character (or ends the template) -/
 def detectOK : List Piece → Bool
   | [] => true
-  | .field n _ :: rest =>
-    if n != [] then true
-    else match rest with
-      | [] => true
-      | .text _ :: r => detectOK r
-      | _ => false
-  | _ :: rest => detectOK rest
+  | p :: rest =>
+    match p with
+    | .field n _ => n != [] || rest.isEmpty || (startsText rest && detectOK rest)
+    | _ => detectOK rest
 
 /-! ## fmt's top level, as far as the property needs it -/
 
@@ -290,16 +291,19 @@ def natStr (n : Nat) : Str := (toString n).toList
 def populateNames (keys : List (Str × Str)) (nargs : Nat) : List Str :=
   keys.map (·.1) ++ (List.range' keys.length (nargs - keys.length)).map (fun i => '_' :: natStr i)
 
-/-- the generated format string: for `i < n`: `{syntax_i}` if there is a non-empty syntax else `{}`, then the
-    delimiter unless `i = n - 1` -/
+/-- the piece generated for argument `i`: `{syntax_i}` if there is a cached non-empty syntax, else `{}` -/
+def oneField (keys : List (Str × Str)) (i : Nat) : Str :=
+  match keys[i]? with
+  | some (_, syn) => if syn ≠ [] then '{' :: (syn ++ ['}']) else ['{', '}']
+  | none => ['{', '}']
+
+/-- the generated format string (`k` = iterations left, `i = n - k`): the piece for `i`, then the delimiter
+    unless `i = n - 1` -/
 def genFormat (sep : Str) (keys : List (Str × Str)) (n : Nat) : Nat → Str
   | 0 => []
   | k + 1 =>
     let i := n - (k + 1)
-    let one : Str := match keys[i]? with
-      | some (_, syn) => if syn ≠ [] then '{' :: (syn ++ ['}']) else ['{', '}']
-      | none => ['{', '}']
-    one ++ (if i < n - 1 then sep else []) ++ genFormat sep keys n k
+    oneField keys i ++ (if i < n - 1 then sep else []) ++ genFormat sep keys n k
 
 def joinVals (sep : Str) : List Str → Str
   | [] => []
@@ -418,9 +422,14 @@ def jsonArgs : List (Str × Str) → Str
   | [] => []
   | (k, v) :: rest => [',', '"'] ++ k ++ ['"', ':', '"'] ++ v ++ ['"'] ++ jsonArgs rest
 
+/-- `if (named_args) { for … }` -/
+def jsonArgsOpt : Option (List (Str × Str)) → Str
+  | some ps => jsonArgs ps
+  | none => []
+
 /-- the bytes handed to the stream: header, pairs (if the pointer is non-null), `}\n` -/
 def jsonLine (layout : List (Str × HdrField)) (h : Hdr) (tmpl : Str) (pairs : Option (List (Str × Str))) : Str :=
-  jsonHeader layout h (removeNewlines tmpl) ++ (match pairs with | some ps => jsonArgs ps | none => []) ++ ['}', '\n']
+  jsonHeader layout h (removeNewlines tmpl) ++ jsonArgsOpt pairs ++ ['}', '\n']
 
 /-! ## one statement through the backend (what a sink observes) -/
 
